@@ -193,9 +193,13 @@ def check(pid, tier, seed):
 
     # 1. gen
     gen_info = {}
+    if not getattr(mod, "KERNELS", None):
+        import pygen.gen as gen0
+        gen0.generate(None)
     if getattr(mod, "KERNELS", None):
         import pygen.gen as gen
-        gen_info = gen.generate(mod.KERNELS)
+        gen_info = gen.generate(None)   # always regenerate every kernel: Gen/ must reflect /repo as it is now
+        gen_info = {k: v for k, v in gen_info.items() if k in mod.KERNELS}
         for k, v in gen_info.items():
             if v.get("error"):
                 broken.append({"what": "translator", "kernel": k, "detail": v["error"]})
